@@ -606,25 +606,29 @@ PURE_LEAF_CALLS = ("len", "count", "min", "max", "from", "into", "saturating_sub
                    "to_owned", "abs_diff", "capacity", "as_bytes", "as_slice", "as_str", "index", "start", "end")
 
 
-def leaves(ex, out=None):
+def leaves(ex, out=None, opaque=()):
     """identity strings of the non-constant leaves of an origin expression; the result of a call is an opaque
-    leaf identified by its call site, except for pure projections (len, min, from, …) which are looked through"""
+    leaf identified by its call site, except for pure projections (len, min, from, …) which are looked through.
+    `opaque` names pure calls that must not be looked through for the question at hand: a test `min(a, b) < k` does not
+    bound `a` from above (guards: opaque = min), and a bound on `a` does not bound `max(a, b)` (operands: opaque = max)."""
     if out is None:
         out = set()
     k = ex[0]
     if k == "param":
         out.add("param:%d" % ex[1])
     elif k == "call":
-        if X.last_seg(ex[1]) in PURE_LEAF_CALLS:
+        if X.last_seg(ex[1]) in PURE_LEAF_CALLS and X.last_seg(ex[1]) not in opaque:
+            if X.last_seg(ex[1]) in ("min", "max"):
+                out.add("call:%s@%s" % (X.short(ex[1]), ex[4]))     # the clamped value itself may be what a test looks at
             for a in ex[3]:
-                leaves(a, out)
+                leaves(a, out, opaque)
         else:
             out.add("call:%s@%s" % (X.short(ex[1]), ex[4]))
     elif k == "callind":
         out.add("callind@%s" % (ex[3],))
     elif k == "field":
         out.add("field:" + X.render(ex))
-        leaves(ex[1], out)
+        leaves(ex[1], out, opaque)
     elif k in ("mutated", "loop"):
         out.add("%s:%s" % (k, ex[1]))
     elif k == "assoc":
@@ -632,24 +636,24 @@ def leaves(ex, out=None):
     elif k == "env":
         out.add("env")
     elif k in ("deref", "ref", "downcast", "discr", "mut", "overflowflag", "repeat", "subslice", "proj?", "try"):
-        leaves(ex[1], out)
+        leaves(ex[1], out, opaque)
     elif k == "index":
-        leaves(ex[1], out)
-        leaves(ex[2], out)
+        leaves(ex[1], out, opaque)
+        leaves(ex[2], out, opaque)
     elif k == "bin":
-        leaves(ex[2], out)
-        leaves(ex[3], out)
+        leaves(ex[2], out, opaque)
+        leaves(ex[3], out, opaque)
     elif k in ("un", "cast"):
-        leaves(ex[2], out)
+        leaves(ex[2], out, opaque)
     elif k == "agg":
         for _, e in ex[4]:
-            leaves(e, out)
+            leaves(e, out, opaque)
     elif k == "phi":
         for a in ex[1]:
-            leaves(a, out)
+            leaves(a, out, opaque)
     elif k == "unwrap_or":
-        leaves(ex[1], out)
-        leaves(ex[2], out)
+        leaves(ex[1], out, opaque)
+        leaves(ex[2], out, opaque)
     return out
 
 
@@ -824,7 +828,8 @@ class Guards:
         g = Guard()
         g.bb, g.kind, g.op, g.text = bb, kind, op, text
         g.direct, g.negated = direct, negated
-        g.L, g.R = (leaves(l) if l is not None else set()), (leaves(r) if r is not None else set())
+        # upper-bound reading of a comparison: what is under `min` is not bounded by it
+        g.L, g.R = (leaves(l, opaque=("min",)) if l is not None else set()), (leaves(r, opaque=("min",)) if r is not None else set())
         g.Lc, g.Rc = (_constval(l) if l is not None else None), (_constval(r) if r is not None else None)
         self.guards.append(g)
 
@@ -892,9 +897,18 @@ def _side(body, g, bb):
     return None
 
 
+def _both_sides_reach(body, g, bb):
+    """the comparison decides a two-way branch and the sink is reachable from both of its successors"""
+    t = body.blocks[g.bb]["term"]
+    if not t or t["k"] != "switch" or len(t["targets"]) != 1:
+        return False
+    tr, fl = t["otherwise"], t["targets"][0]
+    return bb in body.reach_from(tr) and bb in body.reach_from(fl)
+
+
 def upper_guard(dom, ex, body=None, bb=None):
     """a dominating ordering comparison that can bound `ex` from above (or the Option it was unwrapped from)"""
-    ls = leaves(ex)
+    ls = leaves(ex, opaque=("max",))
     if not ls:
         return None
     for g in dom:
@@ -907,6 +921,8 @@ def upper_guard(dom, ex, body=None, bb=None):
                         if below == side:
                             return g
                 continue
+            if _both_sides_reach(body, g, bb):
+                continue        # `if x > k { log }`: both outcomes flow on to the sink, nothing is known about x there
         if g.kind == "discr":
             if g.L & ls:
                 return g
